@@ -260,14 +260,17 @@ v('C11', 'marker-written-in-place', 'own.write', (P, '''	scoped := make(Map, len
 	return scoped''', '''	current["<-"] = query.data
 	return current'''))
 v('C11', 'exists-merges-in-place', 'own.write', (P, '''		merged := make(Map, len(item)+len(current))
-		for key, value := range item {
-			merged[key] = value
-		}
 		for key, value := range current {
 			merged[key] = value
 		}
+		// the element's own columns hide the outer row's columns of the same name
+		for key, value := range item {
+			merged[key] = value
+		}
 		from[i] = merged''', '''		for key, value := range current {
-			item[key] = value
+			if _, own := item[key]; !own {
+				item[key] = value
+			}
 		}
 		from[i] = item'''))
 v('C11', 'cte-registered-in-callers-map', 'own.write', (P, '''	data := make(Map, len(query.data)+len(expr.CTEs))
